@@ -219,8 +219,8 @@ SPECS = {
             {"name": "erht", "n": {"quick": 400, "thorough": 4000}, "seed_off": 19},
             {"name": "treetext", "n": {"quick": 150, "thorough": 2500}, "seed_off": 23},
         ],
-        "explanation": "The five pairwise matrices (1592 pairs) transcribed from test/complex/tree_concurrency_test.go are run exhaustively on real Documents in 2 actor orders x 2 delivery orders, each with a snapshot-fed third replica and clone==root on every replica (6368 executions; a divergent pair is a failure, not a skip). Coq: the attribute tables written by Style/RemoveStyle are proved convergent (LWW registers commute); the RHT model is compared with crdt.RHT on random call sequences. The fragment 'text inside one element' of Tree.Edit has a character-level model (Crdt/TreeText.v: position resolution with the step over newer pieces, deletion under the author's version vector, insertion) that is compared with the real crdt.Tree on 2-3 replicas with causal delivery after every execution (engine treetext: every piece id, character and tombstone), and on it two concurrent edits are proved to commute (C19_text_edits_in_one_element_commute_partial).",
-        "assumptions": ["PARTIAL: crdt/tree.go has a Coq model for the text-inside-one-element fragment only (no element children, splits, merges); for everything else the matrix verdict is exhaustive execution of the finite matrix on the implementation",
+        "explanation": "The five pairwise matrices (1592 pairs) transcribed from test/complex/tree_concurrency_test.go are run exhaustively on real Documents in 2 actor orders x 2 delivery orders, each with a snapshot-fed third replica and clone==root on every replica (6368 executions; a divergent pair is a failure, not a skip). Coq: the attribute tables written by Style/RemoveStyle are proved convergent (LWW registers commute); the RHT model is compared with crdt.RHT on random call sequences. The one-level fragments of Tree.Edit ('text inside one element', and 'empty elements among the children of one element') have a character-level model (Crdt/TreeText.v: position resolution with the step over newer pieces, deletion under the author's version vector, insertion) that is compared with the real crdt.Tree on 2-3 replicas with causal delivery after every execution (engine treetext: every piece id, character and tombstone), and on it two concurrent edits are proved to commute (C19_text_edits_in_one_element_commute_partial).",
+        "assumptions": ["PARTIAL: crdt/tree.go has a Coq model for the one-level fragments only (text inside one element; empty elements under one parent; no nesting, splits, merges); for everything else the matrix verdict is exhaustive execution of the finite matrix on the implementation",
                         "engine treetext renders the ticket of an inserted text node as the ticket of its edit (same actor and lamport, neighbouring delimiters: every comparison between tickets of different edits is decided alike for the two); ranges given the wrong way round are outside the model and not generated (crdt.Tree.Edit inserts at a place that depends on how the characters are chunked into pieces)"],
     },
     "C20": {
